@@ -198,6 +198,31 @@ func orderEval(fn *ssa.Function, leaf func(v ssa.Value, eval func(ssa.Value) (in
 				return a * b, ""
 			}
 			return 0, "operation " + x.Op.String() + " outside the ordering abstraction"
+		case *ssa.Extract:
+			// the borrow out of bits.Sub64(a, b, borrowIn): a < b, or a == b with a borrow coming in — decided by the
+			// ordering of a and b alone
+			if call, isCall := x.Tuple.(*ssa.Call); isCall && x.Index == 1 && core.IsFunc(core.Callee(call.Common()), "math/bits", "Sub64") && len(call.Call.Args) == 3 {
+				a, why := val(call.Call.Args[0], d+1)
+				if why != "" {
+					return 0, why
+				}
+				b, why := val(call.Call.Args[1], d+1)
+				if why != "" {
+					return 0, why
+				}
+				bin, why := val(call.Call.Args[2], d+1)
+				if why != "" {
+					return 0, why
+				}
+				if bin != 0 && bin != 1 {
+					return 0, "borrow that is neither 0 nor 1"
+				}
+				if a < b+bin {
+					return 1, ""
+				}
+				return 0, ""
+			}
+			return 0, "value outside the ordering abstraction: " + v.String()
 		case *ssa.Call:
 			callee := core.Callee(x.Common())
 			if callee == nil || !core.InModule(callee) || !pureDecision(callee) {
@@ -332,6 +357,23 @@ func RuleO1(c *Ctx) {
 					}
 				case *ssa.Call:
 					callee := core.Callee(u.Common())
+					if core.IsFunc(callee, "math/bits", "Sub64") && len(u.Call.Args) == 3 {
+						// one step of a borrow chain over a same-index pair; only the borrow may be used
+						a0, ok0 := limbOf(u.Call.Args[0], cells)
+						a1, ok1 := limbOf(u.Call.Args[1], cells)
+						switch {
+						case !ok0 || !ok1 || a0.who == a1.who:
+							und = append(und, fmt.Sprintf("bits.Sub64 is not given one limb of each operand at %s", c.P.Pos(u.Pos())))
+						case !a0.sameIndex(a1):
+							bad = append(bad, fmt.Sprintf("bits.Sub64 subtracts limb %s of one operand from limb %s of the other at %s", a1, a0, c.P.Pos(u.Pos())))
+						}
+						for _, rr := range *u.Referrers() {
+							if ex, isEx := rr.(*ssa.Extract); isEx && ex.Index == 0 && ex.Referrers() != nil && len(*ex.Referrers()) > 0 {
+								und = append(und, fmt.Sprintf("the difference computed by bits.Sub64 is used at %s", c.P.Pos(u.Pos())))
+							}
+						}
+						continue
+					}
 					if callee == nil || !core.InModule(callee) || !pureDecision(callee) || len(u.Call.Args) != 2 {
 						und = append(und, fmt.Sprintf("limb %s is passed to %s at %s", l, core.CalleeName(u.Common()), c.P.Pos(u.Pos())))
 						continue
@@ -347,6 +389,44 @@ func RuleO1(c *Ctx) {
 				case *ssa.DebugRef:
 				default:
 					und = append(und, fmt.Sprintf("limb %s is used outside a comparison at %s", l, c.P.Pos(r.Pos())))
+				}
+			}
+		})
+		// whole-operand loads of the local copies may only be compared for (in)equality with each other
+		core.AllInstrs(fn, func(i ssa.Instruction) {
+			u, isLd := i.(*ssa.UnOp)
+			if !isLd || u.Op != token.MUL {
+				return
+			}
+			who, isCell := cells[u.X]
+			if !isCell {
+				return
+			}
+			if _, isAl := u.X.(*ssa.Alloc); !isAl {
+				return // the load that makes the local copy
+			}
+			for _, r := range *u.Referrers() {
+				switch x := r.(type) {
+				case *ssa.BinOp:
+					other := x.X
+					if other == ssa.Value(u) {
+						other = x.Y
+					}
+					ou, okO := other.(*ssa.UnOp)
+					ow, isC := 0, false
+					if okO && ou.Op == token.MUL {
+						ow, isC = cells[ou.X]
+					}
+					if (x.Op != token.EQL && x.Op != token.NEQ) || !isC || ow == who {
+						und = append(und, fmt.Sprintf("a whole operand is used other than in an equality test with the other operand at %s", c.P.Pos(x.Pos())))
+					} else {
+						nLoads++
+					}
+				case *ssa.Call:
+					// ToRegular / FromMont on the copy: handled by the regular-form clause
+				case *ssa.Store, *ssa.DebugRef:
+				default:
+					und = append(und, fmt.Sprintf("a whole operand is used outside a comparison at %s", c.P.Pos(r.Pos())))
 				}
 			}
 		})
@@ -416,6 +496,23 @@ func RuleO1(c *Ctx) {
 				k /= 3
 			}
 			leaf := func(v ssa.Value, eval func(ssa.Value) (int64, bool)) (int64, bool) {
+				// a load of a whole operand (compared with == / != only, see the touch discipline): a code of all
+				// four limbs, equal exactly when no limb differs
+				if u, isLd := v.(*ssa.UnOp); isLd && u.Op == token.MUL {
+					if who, isCell := cells[u.X]; isCell {
+						code := int64(1000)
+						if who == 0 {
+							for i := 0; i < 4; i++ {
+								p := int64(1)
+								for j := 0; j < i; j++ {
+									p *= 3
+								}
+								code += int64(rel[i]) * p
+							}
+						}
+						return code, true
+					}
+				}
 				l, ok := limbOf(v, cells)
 				if !ok {
 					return 0, false
